@@ -188,3 +188,165 @@ def rule_M8b(ctx):
                                  % (fn.q, key[0], ', '.join(x or '.' for x in key[1]), cnt, other.q))
     res.analysed.update({'sibling_pairs': npairs, 'normaliser_calls': ncalls})
     return res, npairs, ncalls
+
+
+# ---------------------------------------------------------------------------------------------- SIB1
+_SIB_TR = ('ImplicitCastExpr', 'ParenExpr', 'ExprWithCleanups', 'MaterializeTemporaryExpr', 'CXXBindTemporaryExpr',
+           'CXXFunctionalCastExpr', 'CStyleCastExpr', 'CXXStaticCastExpr', 'ConstantExpr')
+
+# (function, assigned name) -> why the two siblings legitimately differ there
+SIB1_AUDITED = {
+    ('GenInverse', 'dn1'): 'the exact solver uses a form of dn that stays accurate for prolate ellipsoids (f < 0)',
+    ('GenInverse', 'dn2'): 'as dn1',
+    ('LineInit', '_dn1'): 'as dn1',
+    ('GenInverse', 'sig12'): 'the series solver adds 0 to turn -0 into +0 in the meridional case',
+    ('GenPosition', 'ssig2'): 'the exact line obtains sig2 through the elliptic functions (sncndn) first',
+    ('GenPosition', 'csig2'): 'as ssig2',
+    ('GenPosition', 'ssig12'): 'the series line recomputes sin/cos(sig12) after its Newton correction for |f| > 0.01',
+    ('GenPosition', 'csig12'): 'as ssig12',
+    ('LineInit', '_aA4'): 'the exact line keeps its own copy _e2, the series line reads g._e2',
+    ('LineInit', '_e2'): 'copy kept by the exact line only',
+    ('LineInit', '_bB41'): 'series: SinCosSeries of the C4 coefficients; exact: the DST-based I4 integral, 0 at sig1',
+}
+
+
+def _sib_canon(f, i, ids):
+    n = f.nodes[i]
+    k = n['k']
+    if k in _SIB_TR and n.get('ch'):
+        return _sib_canon(f, n['ch'][-1], ids)
+    if k == 'DeclRefExpr':
+        nm = n.get('name') or '?'
+        if n.get('rk') in ('param', 'local', 'var'):
+            ids.add(nm)
+        return nm
+    if k == 'MemberExpr':
+        ids.add(n.get('m'))
+        b = f.nodes[f.strip_casts(n['ch'][0])] if n.get('ch') else None
+        if b is None or b['k'] == 'CXXThisExpr':
+            return str(n.get('m'))
+        return _sib_canon(f, n['ch'][0], ids) + '.' + str(n.get('m'))
+    if k == 'CXXThisExpr':
+        return 'this'
+    if 'cv' in n:
+        return str(n['cv'])
+    if k in ('FloatingLiteral', 'IntegerLiteral', 'CXXBoolLiteralExpr'):
+        return str(n.get('v'))
+    ce = n.get('callee')
+    if ce and n.get('args') is not None:
+        ids.add('()' + str(ce.get('name')))
+        return str(ce.get('name')) + '(' + ','.join(_sib_canon(f, a, ids) for a in n['args']) + ')'
+    if k in ('BinaryOperator', 'CompoundAssignOperator'):
+        a, b = _sib_canon(f, n['ch'][0], ids), _sib_canon(f, n['ch'][1], ids)
+        op = n.get('op', '?')
+        if op in ('+', '*', '==', '!=', '&&', '||', '&', '|') and b < a:
+            a, b = b, a
+        return '(' + a + op + b + ')'
+    if k == 'UnaryOperator':
+        return n.get('op', '?') + _sib_canon(f, n['ch'][0], ids)
+    if k == 'ConditionalOperator':
+        return '(' + _sib_canon(f, n['cond'], ids) + '?' + _sib_canon(f, n['then'], ids) + ':' + \
+            _sib_canon(f, n['else'], ids) + ')'
+    return k + '[' + ','.join(_sib_canon(f, c, ids) for c in n.get('ch', [])) + ']'
+
+
+def _sib_defs(f):
+    """assigned name -> [(canonical right-hand side, identifiers, node)]"""
+    out = {}
+    seen = set()
+    for i, n in f.all_nodes():
+        if n['k'] in ('BinaryOperator', 'CompoundAssignOperator') and str(n.get('op', '')).endswith('=') and \
+                n['op'] not in ('==', '!=', '<=', '>='):
+            ids = set()
+            lhs = _sib_canon(f, n['ch'][0], ids)
+            rhs = _sib_canon(f, n['ch'][1], ids)
+            if n['op'] != '=':
+                rhs = '(' + lhs + n['op'][:-1] + rhs + ')'
+            out.setdefault(lhs, []).append((rhs, frozenset(ids), i))
+        elif n['k'] == 'DeclStmt':
+            for d in n['decls']:
+                if d.get('init', -1) >= 0 and d['d'] not in seen:
+                    seen.add(d['d'])
+                    ids = {d['name']}
+                    out.setdefault(d['name'], []).append((_sib_canon(f, d['init'], ids), frozenset(ids), i))
+    return out
+
+
+def _sib_vocab(f):
+    v = set(p['name'] for p in f.params)
+    for i, n in f.all_nodes():
+        if n['k'] == 'DeclRefExpr' and n.get('rk') in ('param', 'local', 'var'):
+            v.add(n.get('name'))
+        if n['k'] == 'MemberExpr':
+            v.add(n.get('m'))
+        if n['k'] == 'DeclStmt':
+            for d in n['decls']:
+                v.add(d['name'])
+        ce = n.get('callee')
+        if ce:
+            v.add('()' + str(ce.get('name')))
+    return v
+
+
+def rule_SIB1(ctx):
+    import collections
+    res = RuleResult('SIB1', 'clone siblings agree: for a function of the series solver/line and the function of the same name in '
+                             'the exact solver/line, every variable or member that both assign using only names known to both '
+                             'functions is assigned the same expressions the same number of times (modulo casts, parentheses, '
+                             'operand order of commutative operators, compound assignment); audited divergences are listed')
+    byq = {}
+    for f in ctx.lib_fns():
+        if f.d.get('body', -1) >= 0:
+            byq.setdefault(f.q, []).append(f)
+    npairs = 0
+    nnames = 0
+    used_audit = set()
+    for a, b in SIBLING_CLASSES:
+        for q, fs in sorted(byq.items()):
+            if not q.startswith(NS + a + '::'):
+                continue
+            nm = q.split('::')[-1]
+            q2 = NS + b + '::' + (b if nm == a else nm)
+            if q2 not in byq:
+                continue
+            for f in fs:
+                gs = [g for g in byq[q2] if len(g.params) == len(f.params)]
+                if len(gs) != 1:
+                    continue
+                g = gs[0]
+                df, dg = _sib_defs(f), _sib_defs(g)
+                vf, vg = _sib_vocab(f), _sib_vocab(g)
+                common = vf & vg
+                npairs += 1
+                for L in sorted(set(df) | set(dg)):
+                    base = L.split('.')[0].split('[')[0]
+                    if L not in common and base not in common:
+                        continue
+                    sf, sg = df.get(L, []), dg.get(L, [])
+                    if any(not ids <= common for _, ids, _ in sf + sg):
+                        continue            # one side uses names the other does not have: not comparable
+                    nnames += 1
+                    cf = collections.Counter(s for s, _, _ in sf)
+                    cg = collections.Counter(s for s, _, _ in sg)
+                    if cf == cg:
+                        res.ob(True, None)
+                        continue
+                    if (nm, L) in SIB1_AUDITED:
+                        used_audit.add((nm, L))
+                        res.ob(True, {'function': nm, 'name': L, 'audited': SIB1_AUDITED[(nm, L)]})
+                        continue
+                    res.ob(False, {'series': f.q, 'exact': g.q, 'name': L, 'only_series': sorted((cf - cg).elements())[:3],
+                                   'only_exact': sorted((cg - cf).elements())[:3]})
+                    at = None
+                    for s, _, i in sf:
+                        if s in (cf - cg):
+                            at = f.loc(i)
+                    for s, _, i in sg:
+                        if at is None and s in (cg - cf):
+                            at = g.loc(i)
+                    res.fail(f.q, L, at or f.loc(),
+                             '%s is assigned differently in the siblings %s and %s: only in the series version %s; only in the '
+                             'exact version %s' % (L, f.q, g.q, sorted((cf - cg).elements())[:2] or 'nothing',
+                                                   sorted((cg - cf).elements())[:2] or 'nothing'))
+    res.analysed.update({'sibling_pairs': npairs, 'names_compared': nnames, 'audited_divergences_used': len(used_audit)})
+    return res, npairs, nnames
